@@ -132,7 +132,9 @@ fn judge_target(t: &Truth, listed: &[bool], excluded: &[bool], dst: &Path, o: &O
     };
     if let Some(n) = exists {
         let known = present.iter().filter(|&&p| p).count() + specials.len();
-        if n > known {
+        // files the source does not list could legitimately be carried under a synthetic name
+        let anonymous_allowance = (0..t.files.len()).filter(|&k| !listed[k] && !present[k]).count();
+        if n > known + anonymous_allowance {
             r.viol(
                 format!("target holds entries that are neither source files nor special files [{} source]", t.src_class()),
                 format!("existing block entries={n} source files found={} specials={:?}", known - specials.len(), specials),
